@@ -15,9 +15,10 @@ import time
 VERIF = os.path.dirname(os.path.dirname(os.path.abspath(__file__)))
 SPEC = os.path.join(VERIF, "spec")
 HARNESS = os.path.join(VERIF, "harness")
-EVID = os.path.join(VERIF, "evidence")
-REPLAY = os.path.join(EVID, "replay")
 REPO = os.environ.get("VERIF_REPO", "/repo")
+# a run against another tree (VERIF_REPO: a scratch worktree with a seeded change applied) never touches the committed evidence
+EVID = os.path.join(VERIF, "evidence") if REPO == "/repo" else os.environ.get("VERIF_EVIDENCE", tempfile.mkdtemp(prefix="verif-evid-"))
+REPLAY = os.path.join(EVID, "replay")
 TLA_CP = "/opt/veriftools/tla/tla2tools.jar:/opt/veriftools/tla/CommunityModules-deps.jar"
 
 GOENV = dict(os.environ)
@@ -147,6 +148,15 @@ class Ctx:
         out = os.path.join(self.tmp, "vh")
         t0 = time.time()
         cmd = ["go", "build", "-race", "-tags", "verif", "-o", out, "."]
+        if REPO != "/repo":
+            # same harness, library taken from the other tree: an alternative go.mod whose replace points there
+            mf = os.path.join(self.tmp, "alt.mod")
+            with open(os.path.join(HARNESS, "go.mod")) as fh:
+                mod = fh.read().replace("=> /repo", "=> " + REPO)
+            with open(mf, "w") as fh:
+                fh.write(mod)
+            shutil.copy(os.path.join(HARNESS, "go.sum"), os.path.join(self.tmp, "alt.sum"))
+            cmd = ["go", "build", "-modfile=" + mf, "-race", "-tags", "verif", "-o", out, "."]
         r = subprocess.run(cmd, cwd=HARNESS, env=GOENV, stdout=subprocess.PIPE, stderr=subprocess.STDOUT)
         if r.returncode != 0:
             raise ToolError("harness build failed:\n" + r.stdout.decode("utf-8", "replace")[-4000:])
